@@ -21,7 +21,6 @@ NA_PURE = {
 
 PENDING = {
  "C07": "check under construction (claimed in DESIGN.md §4: decoder storage/stream fault enumeration); not registered until it runs end to end",
- "C10": "check under construction (claimed in DESIGN.md §5: transformer call histories with fault injection); not registered until it runs end to end",
  "C18": "check under construction (claimed in DESIGN.md §3: token-passing scheduler over the real extract goroutines); not registered until it runs end to end",
 }
 
@@ -38,6 +37,10 @@ CHECKS = {
    text="Seeded search over AddLink/ShortestRoute histories (<=40 links on a small lattice with merged, 1-ulp-perturbed and distinct end points, random link geometries and speeds, both MinimizeOptions, queries interleaved with AddLinks) on the real route package, its rtree and gonum's A*; the simulator owns the order in which map-backed neighbour lists reach A*. Every answer is checked against a Dijkstra model: valid chain from the nearest start node to the nearest end node, reported totals equal the sums over the returned links, cost minimal within 1e-9 relative, empty route when unreachable.",
    note="Trusted: the oracle's Dijkstra and polyline lengths. Query points keep a margin so that the nearest node is unique; equal-cost alternatives are accepted. No fault kinds exist for this component; the neighbour order is the only nondeterminism and is drawn from the tape through the add-only verif hook in Network.From/Nodes.",
    technique="deterministic simulation: seeded AddLink/query histories with simulator-owned map order vs Dijkstra reference, tape-minimised replay"),
+ "C10": dict(engine="sim-hist-proj", cat="exploration", ref="DESIGN.md §5",
+   text="Seeded search over histories of 2-4 interleaved simulated clients building and calling transformers over a shared pool of spatial references (registry names = shared pointers, 3-/7-parameter datums needing the WGS84 hop, non-default axis orders, +pm, +units, +nadgrids), each call compared bit-for-bit with a fresh world (same definitions parsed anew, new transformer, single call), canary transformations over the process-global registry re-evaluated after every run; Geom.Transform on all eight geometry types with a stub transformer wrapped by a fault injector failing on a tape-chosen vertex: same type/nesting, vertex i = t(vertex i), input untouched, nil = identity, the transformer's error returned, no panic.",
+   note="Trusted: the fresh-world oracle runs the same real code (so it cannot see errors that are history-independent - those are C08/C09/C20 territory); pool members are distinct catalogue entries (two separately parsed copies of one definition flip between the Equal shortcut and inverse-forward after use, a 1e-7 m effect the property does not state); panics inside NewTransform itself are outside the statement and only counted; transformers are interleaved, never run in parallel.",
+   technique="deterministic simulation: seeded interleaved client histories vs fresh-world reference, error injection through the Transformer seam, tape-minimised replay"),
 }
 
 HOOK_COMMITS = ["d39f006", "035e079"]
